@@ -170,7 +170,7 @@ func specOpt6OK(code int, v string, kind int) bool {
 		return len(v) >= 24 && specOpts6OK(v[24:], 0, 0)
 	}
 	if code == 26 {
-		return len(v) >= 25 && specOpts6OK(v[25:], 0, 0)
+		return len(v) >= 25 && v[8] <= 128 && specOpts6OK(v[25:], 0, 0)
 	}
 	if code == 6 {
 		return len(v)%2 == 0
@@ -450,9 +450,10 @@ func specOpt6OK(code int, v string, kind int) bool {
 //@ contract (*OptIAPrefix).FromBytes
 //@   let a0 = string(data)
 //@   modifies op, op.Options.Options[len(op.Options.Options):cap(op.Options.Options)]
-//@   ensures[accept] (err == nil) == (len(data) >= 25 && specOpts6OK(a0[25:], 0, 0))
+//@   ensures[accept] (err == nil) == (len(data) >= 25 && a0[8] <= 128 && specOpts6OK(a0[25:], 0, 0))
 //@   ensures[lifetimes] err == nil ==> int(op.PreferredLifetime) == specU32At(a0, 0)*1000000000 && int(op.ValidLifetime) == specU32At(a0, 4)*1000000000
 //@   ensures[prefix] err == nil ==> (a0[8] == 0) == (op.Prefix == nil) && (op.Prefix != nil ==> string(op.Prefix.IP) == a0[9:25])
+//@   ensures[prefix-length] err == nil && op.Prefix != nil ==> dhcpv4.SpecMaskOnes(string(op.Prefix.Mask)) == int(a0[8])
 
 //@ contract (*Opt4RD).FromBytes
 //@   let a0 = string(data)
@@ -743,7 +744,9 @@ func lemmaEnc32Cat(a string, v int) {}
 // list), whatever the options' own encoders return
 //@ contract (Options).ToBytes
 //@   ensures[fresh] result == nil || fresh(result)
+//@   ensures[empty] len(o) == 0 ==> len(result) == 0
 //@   loop 0 invariant[buffer] lexOK(buf) && fresh(buf) && fresh(buf.Buffer) && (buf.Buffer.data == nil || fresh(buf.Buffer.data))
+//@   loop 0 invariant[empty] rangeval == o && (len(o) == 0 ==> len(buf.Buffer.data) == 0)
 
 // nestedTail(result, n, list): after the n header bytes comes exactly what Options.ToBytes returned for the container's own
 // option list (one call of it, on that list): the nested options are never dropped, reordered or taken from elsewhere.
@@ -774,6 +777,8 @@ func lemmaEnc32Cat(a string, v int) {}
 //@   ensures[header] len(result) >= 25 && string(result)[0:4] == specEnc32(specSecs(int(op.PreferredLifetime))) && string(result)[4:8] == specEnc32(specSecs(int(op.ValidLifetime)))
 //@   ensures[prefix] op.Prefix == nil ==> string(result)[8:25] == specZeros(17)
 //@   ensures[prefix-ip] op.Prefix != nil ==> string(result)[9:25] == specIP16(string(op.Prefix.IP))
+//@   ensures[prefix-length] op.Prefix != nil ==> string(result)[8:9] == specByte(dhcpv4.SpecMaskOnes(string(op.Prefix.Mask)))
+//@   ensures[no-options] len(op.Options.Options) == 0 ==> len(result) == 25
 //@   ensures[nested] nestedTail(result, 25, op.Options.Options)
 
 //@ contract (*OptVendorOpts).ToBytes
@@ -1112,6 +1117,29 @@ func lemmaFixStatusCode(data []byte) {
 	verifAssert(r.StatusCode == q.StatusCode && r.StatusMessage == q.StatusMessage)
 	b2 := r.ToBytes()
 	verifAssert(string(b2) == string(b))
+}
+
+// IA Prefix, fixed part (lifetimes, prefix length, prefix): what is decoded survives re-encoding (the nested options are
+// left out: their fixpoint is not composed)
+//@ contract lemmaFixIAPrefix
+func lemmaFixIAPrefix(data []byte) {
+	var q OptIAPrefix
+	if q.FromBytes(data) != nil {
+		return
+	}
+	q.Options.Options = nil
+	b := q.ToBytes()
+	lemmaU32At(string(b), 0, specSecs(int(q.PreferredLifetime)))
+	lemmaU32At(string(b), 4, specSecs(int(q.ValidLifetime)))
+	var r OptIAPrefix
+	err := r.FromBytes(b)
+	verifAssert(err == nil)
+	verifAssert(r.PreferredLifetime == q.PreferredLifetime && r.ValidLifetime == q.ValidLifetime)
+	verifAssert((r.Prefix == nil) == (q.Prefix == nil))
+	if r.Prefix != nil && q.Prefix != nil {
+		verifAssert(string(r.Prefix.IP) == string(q.Prefix.IP))
+		verifAssert(dhcpv4.SpecMaskOnes(string(r.Prefix.Mask)) == dhcpv4.SpecMaskOnes(string(q.Prefix.Mask)))
+	}
 }
 
 //@ contract lemmaFixRemoteID
